@@ -114,6 +114,9 @@ const (
 	vCmp           // boolean defined by a comparison (refines its operand when branched on)
 	vErrAt         // result of Err()/PeekErr(k): nil-ness linked to the end-of-input position
 	vTable         // boolean read from a [256]bool table indexed by a byte value
+	vIdx           // a look-ahead index: an int used as Peek/Move argument whose relation to the terminator is tracked (eng_idx.go)
+	vNegPos        // -Pos(): minus the selection length at the time it was taken (lower bound for backward look-ahead indices)
+	vStrSet        // a string that is one of the constant strings of a package-level table (never reassigned: R-GLOBALS)
 )
 
 type AbsVal struct {
@@ -159,6 +162,18 @@ type AbsVal struct {
 	table *[256]bool
 	tabX  ssa.Value
 	neg   bool // logical negation applied (vCmp/vTable/vErrAt interpreted as "!= nil")
+	// vIdx: the value lies in [ilo, ihi]; value + safe <= distance to the terminator (safe = -inf: unknown);
+	// every byte at coordinates [0, value) is in cover (coverOK); value >= -(selection length) (back).
+	// safe/cover/back describe the current position and are dropped by any cursor movement.
+	ilo, ihi int
+	safe     int
+	cover    ByteSet
+	coverOK  bool
+	back     bool
+	// vByte: the look-ahead index value the byte was read at (Peek(n)); cleared by cursor movement
+	idx ssa.Value
+	// vStrSet
+	strs []string
 }
 
 type absArr struct{ elems []AbsVal }
@@ -247,6 +262,10 @@ func (v AbsVal) String() string {
 		return "cmp"
 	case vErrAt:
 		return "err@" + fmt.Sprint(v.errOff)
+	case vIdx:
+		return fmt.Sprintf("idx[%s..%s safe %s back %v]", infs(v.ilo), infs(v.ihi), infs(v.safe), v.back)
+	case vNegPos:
+		return "-pos"
 	}
 	return fmt.Sprintf("kind%d", v.k)
 }
@@ -279,7 +298,21 @@ func eqAbs(a, b AbsVal) bool {
 		}
 		return true
 	case vByte:
-		return a.set == b.set && a.linked == b.linked && (!a.linked || a.coord == b.coord)
+		return a.set == b.set && a.linked == b.linked && (!a.linked || a.coord == b.coord) && a.idx == b.idx
+	case vIdx:
+		return a.ilo == b.ilo && a.ihi == b.ihi && a.safe == b.safe && a.coverOK == b.coverOK && (!a.coverOK || a.cover == b.cover) && a.back == b.back
+	case vNegPos:
+		return a.fresh == b.fresh
+	case vStrSet:
+		if len(a.strs) != len(b.strs) {
+			return false
+		}
+		for i := range a.strs {
+			if a.strs[i] != b.strs[i] {
+				return false
+			}
+		}
+		return true
 	case vMark:
 		return a.mlo == b.mlo && a.mhi == b.mhi && a.dlo == b.dlo && a.dhi == b.dhi && a.epoch == b.epoch && a.fresh == b.fresh && a.snap == b.snap && a.snapOff == b.snapOff
 	case vRuneLen:
@@ -348,7 +381,16 @@ func joinAbs(a, b AbsVal, wl int) AbsVal {
 		if a.linked && b.linked && a.coord == b.coord {
 			out.linked, out.coord = true, a.coord
 		}
+		if a.idx == b.idx {
+			out.idx = a.idx
+		}
 		return out
+	case vIdx:
+		return joinIdx(a, b, widen)
+	case vNegPos:
+		return AbsVal{k: vNegPos, fresh: a.fresh && b.fresh}
+	case vStrSet:
+		return strSetVal(append(append([]string{}, a.strs...), b.strs...))
 	case vMark:
 		if a.epoch != b.epoch {
 			return top
@@ -769,9 +811,18 @@ func (s *State) unfresh() {
 		s.moves++
 	}
 	for v, avP := range s.vals {
-		if avP.fresh {
+		switch {
+		case avP.fresh:
 			av := *avP
 			av.fresh = false
+			s.vals[v] = &av
+		case avP.k == vIdx && (avP.safe > -inf || avP.coverOK || avP.back):
+			av := *avP
+			av.safe, av.coverOK, av.back = -inf, false, false
+			s.vals[v] = &av
+		case avP.k == vByte && avP.idx != nil:
+			av := *avP
+			av.idx = nil
 			s.vals[v] = &av
 		}
 	}
@@ -972,6 +1023,7 @@ func (s *State) joinInto(o *State, wl int) bool {
 	widen := wl >= 1
 	hardWiden := wl >= 2
 	changed := false
+	sE0, sL0 := s.E, s.Lmin // before the join: each side's look-ahead constants are judged against its own facts
 	setInt := func(dst *int, v int) {
 		if *dst != v {
 			*dst = v
@@ -1116,8 +1168,18 @@ func (s *State) joinInto(o *State, wl int) bool {
 			changed = true
 			continue
 		}
+		switch {
+		case av.k == vIdx && ov.k == vInt:
+			ov = o.idxOfInts(ov)
+		case av.k == vInt && ov.k == vIdx:
+			av = s.idxOfIntsAt(av, sE0, sL0)
+		case av.k == vInt && ov.k == vInt && isPlainInt(v.Type()) && len(av.ints) == 1 && len(ov.ints) == 1 && av.ints[0] != ov.ints[0] &&
+			av.ints[0] >= 0 && ov.ints[0] >= 0 && int(av.ints[0]) <= sE0 && int(ov.ints[0]) <= o.E:
+			// two different look-ahead constants, each in front of its own terminator bound: keep that relation
+			av, ov = s.idxOfIntsAt(av, sE0, sL0), o.idxOfInts(ov)
+		}
 		j := joinAbs(av, ov, wl)
-		if !eqAbs(j, av) {
+		if !eqAbs(j, *avP) {
 			if joinDebug {
 				fmt.Fprintf(os.Stderr, "JOIN change val %s: %s + %s -> %s | dec %d %d %d off %d %d %d snap %p %p %p fresh %v %v %v\n", v.Name(), av, ov, j, av.dec, ov.dec, j.dec, av.snapOff, ov.snapOff, j.snapOff, av.snap, ov.snap, j.snap, av.fresh, ov.fresh, j.fresh)
 			}
